@@ -173,7 +173,12 @@ def setup_inputs(chk, pid):
             if w.field not in fields:
                 continue
             n += 1
-            for g, leaf in sym.cases(w.value):
+            from .common import GX
+            for g, leaf, raws in sym.split_cases(canon(w.value), raw=True):
+                gg = GX(w, g, raws)
+                if sym.inconsistent(gg):
+                    continue  # e.g. the `{}` default of kwargs.get(key, {}) under "the lookup did not fail"
+                leaf = sym.restrict(leaf, gg)
                 ok = _plain_selection(leaf)
                 chk.ob("C04.R6", ok, CORE, host, "input-stored-untransformed:%s" % w.field, "input data is stored as supplied: a column of the argument, or the node's own empty column",
                        where=w.where, expected="universe[name] / kwargs[key][name] / self.data[col] / None", found=short(leaf, 140), sample={"field": w.field, "value": short(leaf, 100)})
@@ -221,3 +226,10 @@ def run(chk):
         if (cls, name) in (("HedgeRisks", "__call__"), ("UpdateRisk", "_set_risk_recursive")):
             check_equiv(chk, "C20.R2" if cls == "HedgeRisks" else "C20.R1", "bt/algos.py", cls, name, src, "documented-behaviour", "%s.%s: %s" % (cls, name, what),
                         no_inline=("_set_risk_recursive", "_get_target_risk") if name != "_set_risk_recursive" else ("_set_risk_recursive",), limit=14)
+    # the weight reports divide each date's row by the root's value OF THAT DATE (its history), never by a current scalar
+    from .algo_equiv import check_equiv
+    from .c18 import REFS as REPORT_REFS
+    for mod, cls, name, src, what in REPORT_REFS:
+        if (cls, name) in (("Backtest", "weights"), ("Backtest", "security_weights")):
+            check_equiv(chk, "C18.R1", mod, cls, name, src, "report-formula", "%s.%s: %s" % (cls, name, what), no_inline=("update", "get_transactions"), limit=14, ignore_refresh=True)
+    core_rules.security_update(chk, "C04")  # history rows are written at the current index only: a write elsewhere (or over the whole column) moves information across dates
